@@ -34,6 +34,12 @@ type stats struct {
 	acceptedCorrect  map[string]int
 	sigCount         map[string]int
 	reduceCases      int
+	xCases           int
+	xExec            int
+	xPatterns        map[string]int
+	intUnjudged      int
+	plainRecv        map[string]int
+	branches         map[string]int
 	reduceExec       int
 	reduceAgree      map[string]int
 	reduceDisagree   map[string]int
@@ -43,7 +49,7 @@ func newStats() *stats {
 	return &stats{byOp: map[string]int{}, byPattern: map[string]int{}, insts: map[string]int{}, storage: map[string]int{},
 		foreign: map[string]int{}, infoDisagree: map[string]int{}, undefinedDiffers: map[string]int{},
 		rejected: map[string]int{}, acceptedCorrect: map[string]int{}, sigCount: map[string]int{},
-		reduceAgree: map[string]int{}, reduceDisagree: map[string]int{}}
+		reduceAgree: map[string]int{}, reduceDisagree: map[string]int{}, plainRecv: map[string]int{}, branches: map[string]int{}, xPatterns: map[string]int{}}
 }
 
 func (st *stats) add(f func()) {
@@ -96,6 +102,12 @@ func replay(args []string) {
 				return e
 			}
 			reduceCase(c, line, out, st)
+		case "xcont":
+			c := &xCase{}
+			if e := json.Unmarshal(line, c); e != nil {
+				return e
+			}
+			xcontCase(c, line, out, st)
 		case "cont":
 			c := &cCase{}
 			if e := json.Unmarshal(line, c); e != nil {
@@ -121,6 +133,8 @@ func replay(args []string) {
 		"mixed_order_executions": st.mixedOrder, "mismatches": st.mism, "by_op": st.byOp, "by_pattern": st.byPattern,
 		"instantiations": st.insts, "storage": st.storage, "foreign_defects": st.foreign, "info_disagree": st.infoDisagree,
 		"undefined_differs": st.undefinedDiffers, "rejected_by_panic": st.rejected, "accepted_correct": st.acceptedCorrect,
-		"sig_counts": st.sigCount, "tolerance_factor": tolK, "reduce_cases": st.reduceCases, "reduce_executions": st.reduceExec,
+		"sig_counts": st.sigCount, "tolerance_factor": tolK, "int_unjudged": st.intUnjudged, "special_cases": st.xCases, "special_executions": st.xExec,
+		"special_patterns": st.xPatterns, "plain_receiver_by_op": st.plainRecv,
+		"branches": st.branches, "reduce_cases": st.reduceCases, "reduce_executions": st.reduceExec,
 		"reduce_elem_receiver_agrees": st.reduceAgree, "reduce_elem_receiver_disagrees": st.reduceDisagree})
 }
